@@ -267,6 +267,7 @@ type session struct {
 	holdCh      chan struct{}
 	failSet     map[int]bool
 	bgWG        sync.WaitGroup
+	stormStop   chan struct{}
 	failNext    int32 // the next failNext saves of the mem back end are rejected (step "failnext")
 	tr          *Trace
 	rng         *rand.Rand
@@ -1097,6 +1098,27 @@ func RunSession(spec *SessSpec) *Trace {
 			w0 := s.writeCount()
 			full.Commit()
 			env.Log.Add(evlog.Rec{K: "ctl.absorbedcommit", VB: -1, A: uint64(s.writeCount() - w0)})
+		case "commitstorm": // Commit() in a tight loop from another goroutine until "stopstorm" (saves racing with acknowledgements)
+			stop := make(chan struct{})
+			s.stormStop = stop
+			s.bgWG.Add(1)
+			go func() {
+				defer s.bgWG.Done()
+				for {
+					select {
+					case <-stop:
+						return
+					default:
+					}
+					full.D.Commit()
+				}
+			}()
+		case "stopstorm":
+			if s.stormStop != nil {
+				close(s.stormStop)
+				s.stormStop = nil
+				s.bgWG.Wait()
+			}
 		case "breakfile": // the directory of the checkpoint file disappears: the next file save is rejected by the file system
 			if tr.FilePath != "" {
 				_ = os.Rename(filepath.Dir(tr.FilePath), filepath.Dir(tr.FilePath)+".gone")
